@@ -37,10 +37,17 @@ type Solver struct {
 	log      io.Writer // optional transcript
 	timeoutMs int
 	depth    int
+	script   []string // every command of the current path scope (for fallback solvers / dumps)
+	fallbackMs int
+	Fallbacks int
+	FallbackTime time.Duration
 }
 
 func NewSolver(bin string, timeoutMs int) (*Solver, error) {
-	s := &Solver{bin: bin, timeoutMs: timeoutMs}
+	s := &Solver{bin: bin, timeoutMs: timeoutMs, fallbackMs: timeoutMs}
+	if s.timeoutMs > 3000 {
+		s.timeoutMs = 3000 // hard queries go to the one-shot fallback pipeline instead
+	}
 	switch {
 	case strings.Contains(bin, "cvc5"):
 		s.args = []string{"--incremental", "--lang=smt2", "--produce-models", fmt.Sprintf("--tlimit-per=%d", timeoutMs)}
@@ -94,6 +101,9 @@ func (s *Solver) Close() {
 }
 
 func (s *Solver) send(line string) {
+	if s.depth == 1 && !strings.HasPrefix(line, "(echo") {
+		s.script = append(s.script, line)
+	}
 	if s.log != nil {
 		fmt.Fprintln(s.log, line)
 	}
@@ -133,11 +143,12 @@ func (s *Solver) roundTrip(cmd string) []string {
 	return lines
 }
 
-func (s *Solver) Push() { s.send("(push 1)"); s.depth++ }
+func (s *Solver) Push() { s.depth++; s.send("(push 1)") }
 func (s *Solver) Pop()  { s.send("(pop 1)"); s.depth-- }
 
 // ResetPath drops every definition made inside the path scope.
 func (s *Solver) BeginPath() {
+	s.script = s.script[:0]
 	s.Push()
 	s.defined = map[int64]string{}
 	s.declared = map[string]bool{}
@@ -221,7 +232,78 @@ func (s *Solver) CheckWith(extra *Term) SatResult {
 	if len(s.Errors) > nerr {
 		return Unknown
 	}
+	if res == Unknown {
+		res = s.fallback(r)
+	}
 	return res
+}
+
+// fallback re-decides a query that the incremental solver gave up on, one-shot: z3 5.1.0
+// (whose one-shot pipeline bit-blasts to SAT and closes multiplication chains the incremental
+// core does not), then cvc5 with the integer encoding of bit-vector arithmetic, then plain
+// cvc5.  The script is the complete path scope, so the verdict is about the same formula.
+func (s *Solver) fallback(extraRef string) SatResult {
+	r, _ := s.fallbackModel(extraRef, nil)
+	return r
+}
+
+func (s *Solver) fallbackModel(extraRef string, valueRefs []string) (SatResult, []string) {
+	t0 := time.Now()
+	defer func() { s.FallbackTime += time.Since(t0); s.Fallbacks++ }()
+	f, err := os.CreateTemp("", "gosym-fb-*.smt2")
+	if err != nil {
+		return Unknown, nil
+	}
+	defer os.Remove(f.Name())
+	fmt.Fprintln(f, "(set-option :produce-models true)")
+	fmt.Fprintln(f, "(set-logic ALL)")
+	for _, l := range s.script {
+		if strings.HasPrefix(l, "(push") || strings.HasPrefix(l, "(set-option") || strings.HasPrefix(l, "(pop") {
+			continue
+		}
+		fmt.Fprintln(f, l)
+	}
+	fmt.Fprintf(f, "(assert %s)\n(check-sat)\n", extraRef)
+	for _, vr := range valueRefs {
+		fmt.Fprintf(f, "(get-value (%s))\n", vr)
+	}
+	f.Close()
+	if d := os.Getenv("GOSYM_DUMP_UNKNOWN"); d != "" {
+		b, _ := os.ReadFile(f.Name())
+		os.WriteFile(fmt.Sprintf("%s/unknown-%d-%d.smt2", d, os.Getpid(), s.Queries), b, 0o644)
+	}
+	ms := s.fallbackMs
+	if ms == 0 {
+		ms = 60000
+	}
+	cmds := [][]string{
+		{"z3-new", fmt.Sprintf("-T:%d", ms/1000+1), f.Name()},
+		{"cvc5", "--produce-models", "--solve-bv-as-int=sum", fmt.Sprintf("--tlimit=%d", ms), f.Name()},
+		{"cvc5", "--produce-models", fmt.Sprintf("--tlimit=%d", ms), f.Name()},
+	}
+	for _, c := range cmds {
+		out, _ := exec.Command(c[0], c[1:]...).CombinedOutput()
+		lines := strings.Split(strings.TrimSpace(string(out)), "\n")
+		if len(lines) == 0 {
+			continue
+		}
+		switch strings.TrimSpace(lines[0]) {
+		case "unsat":
+			return Unsat, nil
+		case "sat":
+			// values: join the remainder and split per top-level "((" group
+			rest := strings.Join(lines[1:], " ")
+			var vals []string
+			for _, part := range strings.Split(rest, "((")[1:] {
+				vals = append(vals, "(("+part)
+			}
+			if len(valueRefs) > 0 && len(vals) != len(valueRefs) {
+				continue
+			}
+			return Sat, vals
+		}
+	}
+	return Unknown, nil
 }
 
 func (s *Solver) Check() SatResult {
@@ -248,6 +330,32 @@ func (s *Solver) ModelWith(extra *Term, terms []*Term) (SatResult, []*Term) {
 	s.send("(assert " + r + ")")
 	res := s.parseSat(s.roundTrip("(check-sat)"))
 	var vals []*Term
+	if res == Unknown {
+		s.Pop()
+		s.Queries++
+		var needRefs []string
+		var needIdx []int
+		for i, t := range terms {
+			if !t.IsConst() {
+				needRefs = append(needRefs, refs[i])
+				needIdx = append(needIdx, i)
+			}
+		}
+		fr, fvals := s.fallbackModel(r, needRefs)
+		if fr == Sat {
+			vals = make([]*Term, len(terms))
+			for i, t := range terms {
+				if t.IsConst() {
+					vals[i] = t
+				}
+			}
+			for k, i := range needIdx {
+				vals[i] = parseValue(fvals[k], terms[i].S)
+			}
+		}
+		s.Time += time.Since(t0)
+		return fr, vals
+	}
 	if res == Sat && len(terms) > 0 {
 		vals = make([]*Term, len(terms))
 		// ask one by one in a single command; parse pairs
